@@ -73,10 +73,13 @@ func ZZC16(n int) {
 		}
 		boom := zzv.Choice("boom", 2) == 1
 		var val any
-		if zzv.Choice("valkind", 2) == 0 {
+		switch zzv.Choice("valkind", 3) {
+		case 0:
 			val = zzv.Int("pv")
-		} else {
+		case 1:
 			val = zzv.Bytes("pv", 2)
+		default:
+			val = http.ErrAbortHandler // an error value with a meaning elsewhere in net/http
 		}
 		zzBoomArmed, zzBoomVal = boom, val
 		rec.calls, rec.val = 0, nil
